@@ -327,6 +327,14 @@ func (ex *Exec) step(st *State, fr *Frame, in ssa.Instruction) (forks []*State, 
 
 	case *ssa.Range:
 		fr.regs[x] = w.Fresh("rangeiter", SRef)
+		if mt, isM := x.X.Type().Underlying().(*types.Map); isM {
+			// exhaustive enumeration: the set of keys already yielded, per map, starts empty
+			m := ex.operand(st, fr, x.X)
+			vn, vs := w.RangeVisitedArray(mt)
+			ks := w.SortOf(mt.Key())
+			arr := w.heapGet(st.heap, vn, vs)
+			w.heapSet(st.heap, vn, Store(arr, m, Term{fmt.Sprintf("((as const %s) false)", ArraySort(ks, SBool)), ArraySort(ks, SBool)}))
+		}
 		return nil, false
 
 	case *ssa.Next:
@@ -355,6 +363,14 @@ func (ex *Exec) step(st *State, fr *Frame, in ssa.Instruction) (forks []*State, 
 					key = w.Fresh("next!k", w.SortOf(mt.Key())) // key not bound by the loop: still some present key
 				}
 				st.assume(Implies(ok, And(Not(Eq(m, TNil)), Select(Select(w.heapGet(st.heap, pn, ps), m), key))))
+				// a map is enumerated exhaustively and without repetition: the yielded key was
+				// not yet visited; when the enumeration ends every present key has been visited
+				rvn, rvs := w.RangeVisitedArray(mt)
+				rv := w.heapGet(st.heap, rvn, rvs)
+				st.assume(Implies(ok, Not(Select(Select(rv, m), key))))
+				present := Select(w.heapGet(st.heap, pn, ps), m)
+				st.assume(Implies(Not(ok), Term{fmt.Sprintf("(forall ((k!q %s)) (! (=> (select %s k!q) (select (select %s %s) k!q)) :pattern ((select %s k!q))))", w.SortOf(mt.Key()), present.S, rv.S, m.S, present.S), SBool}))
+				w.heapSet(st.heap, rvn, Store(rv, m, Ite(ok, Store(Select(rv, m), key, TTrue), Select(rv, m))))
 				if vv.Sort == w.SortOf(mt.Elem()) && vv.S != "nil" {
 					st.assume(Implies(ok, Eq(vv, Select(Select(w.heapGet(st.heap, vn, vs), m), key))))
 				}
